@@ -4,6 +4,7 @@ package main
 
 import (
 	"fmt"
+	"math/big"
 	"strings"
 	"sync"
 	"time"
@@ -23,7 +24,38 @@ func (i Inst) In(loc *time.Location) time.Time {
 	return time.Unix(i.S, i.N).In(loc)
 }
 func (i Inst) Less(j Inst) bool { return i.S < j.S || (i.S == j.S && i.N < j.N) }
-func (i Inst) Coq() string      { return vh.App("T", vh.Z(i.S), vh.Z(i.N)) }
+
+// coqBig prints an integer for the Coq side. Elaborating a binary Z literal costs ~20 us per bit, so large
+// values are written as two primitive-integer limbs: W hi lo = (hi - 2^20) * 2^62 + lo (MV.C19.ChronoRun.W).
+var (
+	two62  = new(big.Int).Lsh(big.NewInt(1), 62)
+	small  = big.NewInt(1 << 20)
+	limbBi = big.NewInt(1 << 20)
+)
+
+func coqBig(v *big.Int) string {
+	if v.CmpAbs(small) < 0 {
+		if v.Sign() < 0 {
+			return "(" + v.String() + ")"
+		}
+		return v.String()
+	}
+	hi, lo := new(big.Int), new(big.Int)
+	hi.DivMod(v, two62, lo) // Euclidean: 0 <= lo < 2^62
+	hi.Add(hi, limbBi)
+	if hi.Sign() < 0 || hi.BitLen() > 62 {
+		panic("coqBig: value out of range " + v.String())
+	}
+	return "(W " + hi.String() + "%uint63 " + lo.String() + "%uint63)"
+}
+func coqZ(v int64) string { return coqBig(big.NewInt(v)) }
+
+// Coq prints the instant as nanoseconds since the Unix epoch (it does not fit an int64 outside 1678..2262).
+func (i Inst) Coq() string {
+	v := new(big.Int).Mul(big.NewInt(i.S), big.NewInt(1000000000))
+	v.Add(v, big.NewInt(i.N))
+	return coqBig(v)
+}
 
 // ZoneSpec names a Location: a fixed offset (seconds east) or an IANA zone with DST rules.
 type ZoneSpec struct {
@@ -101,13 +133,13 @@ func (r Res) Coq() string {
 	case "b":
 		return vh.App("OB", vh.Bool(r.B))
 	case "z":
-		return vh.App("OZ", vh.Z(r.Z))
+		return vh.App("OZ", coqZ(r.Z))
 	case "p":
 		return vh.App("OP", r.P[0].Coq(), r.P[1].Coq())
 	case "d":
 		a := make([]string, 7)
 		for i, v := range r.D {
-			a[i] = vh.Z(v)
+			a[i] = coqZ(v)
 		}
 		return vh.App("OD", a...)
 	}
@@ -138,10 +170,14 @@ type Case struct {
 	All49 bool     `json:"all49"` // sweep: additionally run the week helpers for every weekday x offset -3..3 (monitors only)
 	Class string   `json:"class"` // generator's boundary class (reporting only)
 	Impl  []Res    `json:"impl"`
+
+	sweepViol []vh.Violation // sweep: monitor hits collected while the block ran
+	sweepN    int            // sweep: instants evaluated
+	sweepNT   int            // sweep: of which on a boundary
 }
 
 func (c *Case) coqQuery() string {
-	z := func(v int64) string { return vh.Z(v) }
+	z := coqZ
 	switch c.Kind {
 	case "inst":
 		return vh.App("QInst", c.T.Coq(), z(c.W), z(c.Kw), z(c.Nd), z(c.H), z(c.M), z(c.S))
@@ -170,6 +206,6 @@ func (c *Case) coqCase(id int) string {
 	for i, r := range c.Impl {
 		rs[i] = r.Coq()
 	}
-	return fmt.Sprintf("{| cid := %d; czone := %s; clocal := %s; cq := %s; cimpl := %s |}",
-		id, vh.Z(c.Zone.Off), vh.Z(c.Local.Off), c.coqQuery(), "["+strings.Join(rs, "; ")+"]")
+	return fmt.Sprintf("{| cid := Z.to_nat %d; czone := %s; clocal := %s; cq := %s; cimpl := %s |}",
+		id, coqZ(c.Zone.Off), coqZ(c.Local.Off), c.coqQuery(), "["+strings.Join(rs, "; ")+"]")
 }
